@@ -10,6 +10,15 @@ using vh::I; using vh::Line; using vh::Out;
 typedef ebpps_sketch<int64_t> sk_t;
 static std::map<long, std::unique_ptr<sk_t>> regs;
 
+// random_idx(0) is undefined in the library (uniform_int_distribution(0, UINT32_MAX) -> out-of-range swap); the
+// harness source turns the request into an exception so that the run continues: the operation answers -5 and
+// the registers it was mutating are dropped (the oracle reports it).
+struct ub_trap : std::logic_error { ub_trap() : std::logic_error("random_idx(0)") {} };
+struct Src : vh::Source {
+  uint64_t index(uint64_t n) override { if (n == 0) throw ub_trap(); return vh::Source::index(n); }
+};
+static Src src;
+
 static sk_t& get(I r) {
   auto it = regs.find((long)r);
   if (it == regs.end()) throw std::invalid_argument("no such register");
@@ -27,8 +36,9 @@ static void put_sorted(std::vector<int64_t> v, Out& o) {
 }
 
 static void handler(const Line& t, Out& o) {
-  vh::install_source(o);
-  if (vh::source_op(t, o)) return;
+  src.out = &o; random_utils::verif_src() = &src;
+  if (t.at(0) == 99) { src.seed((uint64_t)t.at(1)); o.R(1); return; }
+  if (t.at(0) == 98) { for (size_t i = 1; i < t.size(); ++i) src.scripted.push_back(t[i]); o.R(1); return; }
   switch ((int)t.at(0)) {
   case 1: { // new r k
     I k = t.at(2);
@@ -39,7 +49,8 @@ static void handler(const Line& t, Out& o) {
   case 2: { // update r item weight-bits
     sk_t& s = get(t.at(1));
     int64_t item = (int64_t)t.at(2);
-    s.update(item, vh::bitsd(t.at(3)));
+    try { s.update(item, vh::bitsd(t.at(3))); }
+    catch (const ub_trap&) { regs.erase((long)t.at(1)); o.R(-5); break; }
     o.R(1); break; }
   case 3: { // getters
     getters(get(t.at(1)), o); break; }
@@ -47,7 +58,7 @@ static void handler(const Line& t, Out& o) {
     sk_t& s = get(t.at(1));
     o.R(vh::dbits(s.get_c()));
     put_sorted(s.get_result(), o);
-    vh::source().scripted.push_front(0);
+    src.scripted.push_front(0);
     put_sorted(s.get_result(), o);
     break; }
   case 5: { // iterate
@@ -60,8 +71,10 @@ static void handler(const Line& t, Out& o) {
   case 6: { // merge r r2 mode
     if (t.at(1) == t.at(2)) { o.R(-2); break; }
     sk_t& a = get(t.at(1)); sk_t& b = get(t.at(2));
-    if (t.at(3) == 1) { a.merge(std::move(b)); regs.erase((long)t.at(2)); }
-    else a.merge(b);
+    bool rv = (t.at(3) == 1);
+    try { if (rv) a.merge(std::move(b)); else a.merge(b); }
+    catch (const ub_trap&) { regs.erase((long)t.at(1)); if (rv) regs.erase((long)t.at(2)); o.R(-5); break; }
+    if (rv) regs.erase((long)t.at(2));
     o.R(1); break; }
   case 7: { // serialize r, deserialize into r2 (mode 0: bytes, 1: stream)
     sk_t& s = get(t.at(1));
